@@ -21,6 +21,17 @@ func main() {
 		os.Exit(2)
 	}
 	name := os.Args[1]
+	if name == "-list" {
+		var hs []string
+		for h := range registry.Harnesses {
+			hs = append(hs, h)
+		}
+		sort.Strings(hs)
+		for _, h := range hs {
+			fmt.Println(h)
+		}
+		return
+	}
 	fn, ok := registry.Harnesses[name]
 	if !ok {
 		fmt.Fprintf(os.Stderr, "unknown harness %s\n", name)
